@@ -2,7 +2,7 @@ import HW.Model.Registry
 import Driver.Util
 /-
 stream reg (C10, sequential, through the real Engine)
-  in   ops=<op>,...     op ::= sp<id> | st<id> | po<id> | gp<id> | sd<id> | pw<id> (open drain window) | rl<id> (release it)
+  in   ops=<op>,...     op ::= sp<id> | st<id> | po<id> | gp<id> | sd<id> | pw<id> (open drain window) | sw<id> (Stop requested, actor busy) | rl<id> (release)
   impl <r>;<r>;...      r  ::= won<inst>[events] | dup[events] | done[events] | some | none | inst<n> | [events]
 stream regsched (C10, concurrent, real registry.go under the deterministic scheduler)
   in   progs=<op.op|op.op|...> sched=<tid>,...     op ::= a<id> | r<id> | g<id>
@@ -37,7 +37,7 @@ def regSeqCase (inp impl : String) : CaseOut :=
         match r.get key with
         | some i => (r, next, out ++ [s!"inst{i}"], win)
         | none => (r, next, out ++ [s!"[dead:{key}]"], win)
-      else if kind = "pw" then
+      else if kind = "pw" || kind = "sw" then
         if (r.get key).isSome && !win.contains key then (r, next, out ++ ["window[]"], key :: win)
         else (r, next, out ++ ["skip"], win)
       else if kind = "rl" then
